@@ -20,7 +20,8 @@ type Tape struct {
 	NKDC    int                        `json:"nkdc"`
 	Limit   string                     `json:"limit"` // tcp-only | tcp-first | udp-first
 	Beh     map[string]world.Behaviour `json:"beh"`   // "udp!0" ... "tcp!2"
-	Phase   string                     `json:"phase"` // as | tgs
+	Phase   string                     `json:"phase"` // as | tgs | kpasswd (the behaviours then apply to the kpasswd servers)
+	Refuse  int                        `json:"refuse,omitempty"` // kpasswd: result code with which the server refuses by policy
 }
 
 // the six behaviours named in the property's quantifier
@@ -46,18 +47,21 @@ func sweepSize(maxKDC int) int {
 func Meta() core.Meta {
 	return core.Meta{
 		Engine: "c12", Property: "C12", Level: "fault_enumeration",
-		Rule:       "case = one run: a behaviour from {answers, refuses, closes early, silent, KRB-ERROR, response-too-big on UDP} (seeded variants: fragmented TCP replies, close offsets 0/2/4/mid-body, slow-but-answering, connect time-outs, error codes) assigned to every (KDC, transport) endpoint of 1-3 configured KDCs x udp_preference_limit class {1, below the request size, above it} x AS or TGS exchange x seed of the server order; sweep = complete enumeration of the named behaviours for 1-2 KDCs (quick) and 1-3 KDCs (thorough, 143964 assignments); distinct = distinct (assignment with variants, limit class, phase, outcome); non-trivial = at least one endpoint does not simply answer",
+		Rule:       "case = one run: a behaviour from {answers, refuses, closes early, silent, KRB-ERROR, response-too-big on UDP} (seeded variants: fragmented TCP replies, close offsets 0/2/4/mid-body, slow-but-answering, connect time-outs, error codes) assigned to every (KDC, transport) endpoint of 1-3 configured KDCs x udp_preference_limit class {1, below the request size, above it} x AS, TGS or change-password exchange x seed of the server order; sweep = complete enumeration of the named behaviours for 1-2 KDCs (quick) and 1-3 KDCs (thorough, 143964 assignments); distinct = distinct (assignment with variants, limit class, phase, outcome); non-trivial = at least one endpoint does not simply answer",
 		SweepQuick: sweepSize(2), SweepThorough: sweepSize(3),
 		SeededQuick: 4000, SeededThorough: 150000,
-		WorkloadProbes: []string{"first-transport-all-dead-second-good", "tcp-reply-fragmented-in-length-prefix", "krb-error-and-good-coexist", "too-big-then-tcp", "nothing-works", "tcp-only-udp-alive", "close-inside-prefix"},
+		WorkloadProbes: []string{"first-transport-all-dead-second-good", "tcp-reply-fragmented-in-length-prefix", "krb-error-and-good-coexist", "too-big-then-tcp", "nothing-works", "tcp-only-udp-alive", "close-inside-prefix", "kpasswd-exchange", "kpasswd-refused-by-policy"},
 		Components: map[string]string{
 			"client.Login, GetServiceTicket, ASExchange, TGSExchange, sendToKDC, sendKDCTCP/UDP, dialSendTCP/UDP, sendTCP/UDP, checkForKRBError, config.GetKDCs, krb5.conf parser": "real",
 			"net in client/network.go":               "shim: simulated transport (connect, segments, datagrams, deadlines on the fake clock)",
 			"KDC":                                    "stub: refkdc reference model",
+			"client.ChangePasswd, sendToKPasswd, kadmin.ChangePasswdMsg, kadmin.Reply (anchor v8/client/passwd.go)": "real",
+			"kpasswd servers": "stub: refkdc.KPasswd, a reference implementation of RFC 3244 over the reference KDC's database",
 			"math/rand global source (server order)": "real, seeded per run",
 			"DNS SRV discovery of KDCs (dns_lookup_kdc)": "not simulated: KDCs are always configured",
 		},
 		Assumptions: []string{
+			"change-password exchange (a quarter of the runs): it is not a KDC exchange and gokrb5 gives it one transport (by request size) and no second; endpoints of that transport are judged like KDC endpoints (fail-over over servers, KRB-ERROR surfaced, bounded attempts, success only for an applied change), what only the other transport could deliver is left open",
 			"an endpoint that answers after 300ms of latency counts as answering; one that needs an hour counts as silent (no client time-out constant is mirrored)",
 			"when endpoints returning a KRB-ERROR coexist with working ones the allowed outcomes are the union over server orders",
 			"a working endpoint reachable only over a transport the limit class does not permit (udp_preference_limit=1, UDP only) leaves the outcome open",
@@ -91,8 +95,11 @@ func Gen(caseID, tier string) (json.RawMessage, error) {
 		r := core.NewRng(n).Derive("c12sweep")
 		tp := Tape{Engine: "c12", RunSeed: 0xc12<<40 | n, NKDC: nk, Limit: limits[idx%3], Beh: map[string]world.Behaviour{}, Phase: "as"}
 		idx /= 3
-		if r.Chance(1, 3) {
+		switch r.Intn(4) {
+		case 0:
 			tp.Phase = "tgs"
+		case 1:
+			tp.Phase = "kpasswd"
 		}
 		for i := 0; i < nk; i++ {
 			for _, p := range []string{"udp", "tcp"} {
@@ -104,7 +111,10 @@ func Gen(caseID, tier string) (json.RawMessage, error) {
 		return core.MustJSON(tp), nil
 	}
 	r := core.NewRng(n).Derive("c12")
-	tp := Tape{Engine: "c12", RunSeed: n, NKDC: r.Range(1, 3), Limit: limits[r.Intn(3)], Beh: map[string]world.Behaviour{}, Phase: r.Pick("as", "as", "tgs")}
+	tp := Tape{Engine: "c12", RunSeed: n, NKDC: r.Range(1, 3), Limit: limits[r.Intn(3)], Beh: map[string]world.Behaviour{}, Phase: r.Pick("as", "as", "tgs", "kpasswd")}
+	if tp.Phase == "kpasswd" && r.Chance(1, 6) {
+		tp.Refuse = r.PickInt(2, 3, 4, 5)
+	}
 	shape := r.Intn(6)
 	for i := 0; i < tp.NKDC; i++ {
 		for _, p := range []string{"udp", "tcp"} {
